@@ -93,6 +93,8 @@ func (c Case) effective() Case {
 		if c.C || c.D {
 			e.Prefix = ""
 		}
+	case "recsep":
+		e.Prefix = c.Prefix + "a" + c.Prefix2
 	}
 	return e
 }
@@ -109,6 +111,11 @@ func (c Case) template(cx *attrCtx) string {
 		}
 		return `{{define "hp"}}` + p[k:] + `{{end}}` + cx.Pre + c.Quote + "/zz/" + `{{template "hp"}}` + c.Quote + cx.Post +
 			cx.Pre + c.Quote + p[:k] + `{{template "hp"}}` + "{{.V" + c.Pipe + "}}" + string(c.Suffix) + c.Quote + cx.Post
+	case "recsep":
+		// a helper that emits a datum and, behind static text (Prefix2), calls itself for the next one: the datum
+		// under test is the second one, its static prefix is Prefix + "a" + Prefix2
+		return `{{define "hr"}}{{.V` + c.Pipe + `}}{{if .N}}` + string(c.Prefix2) + `{{template "hr" .N}}{{end}}{{end}}` +
+			cx.Pre + c.Quote + string(c.Prefix) + `{{template "hr" .}}` + string(c.Suffix) + c.Quote + cx.Post
 	case "rec":
 		// the action sits in a helper that calls itself and also holds the rest of the attribute
 		return `{{define "hr"}}{{.V` + c.Pipe + `}}{{if .N}}{{template "hr" .N}}{{end}}` + string(c.Suffix) + c.Quote + cx.Post + `{{end}}` +
@@ -294,6 +301,11 @@ func plusDecode(s string) string { return rfc3986.Decode(strings.ReplaceAll(s, "
 
 func check(c Case) evid.Outcome {
 	o := check0(c)
+	if o.Violation != "" && c.Mode == "recsep" && strings.Contains(o.Violation, "partial") {
+		// what is left of K-mangle: static text of the same class in front of a recursive call is not looked at again,
+		// so a partial character reference or percent escape at its end goes unnoticed
+		o.Finding = "K-mangle"
+	}
 	if o.Violation != "" && o.Finding == "" {
 		// the engine decodes static text with html.UnescapeString; where that differs from a browser's
 		// attribute-value decoding of the same prefix the violation belongs to the known finding K-unescape
@@ -326,7 +338,11 @@ func check0(c Case) evid.Outcome {
 		o.Labels = append(o.Labels, "parse-error")
 		return o
 	}
-	out, err := tx.Exec(t, map[string]interface{}{"V": datum, "C": cond.C, "D": cond.D})
+	data := map[string]interface{}{"V": datum, "C": cond.C, "D": cond.D}
+	if cond.Mode == "recsep" {
+		data = map[string]interface{}{"V": "a", "N": map[string]interface{}{"V": datum}}
+	}
+	out, err := tx.Exec(t, data)
 	why := mustReject(cx, c)
 	if err != nil {
 		o.Labels = append(o.Labels, "rejected")
@@ -506,9 +522,12 @@ func gen(t *rapid.T) Case {
 		c.Prefix = evid.BStr(strings.ReplaceAll(string(c.Prefix), "'", ""))
 	}
 	if rapid.IntRange(0, 3).Draw(t, "condprefix") == 0 {
-		c.Mode = rapid.SampledFrom([]string{"same", "hidden", "nested", "nestedhidden", "helper", "rec", "recbal"}).Draw(t, "mode")
+		c.Mode = rapid.SampledFrom([]string{"same", "hidden", "nested", "nestedhidden", "helper", "rec", "recbal", "recsep"}).Draw(t, "mode")
 		c.C, c.D = rapid.Bool().Draw(t, "c"), rapid.Bool().Draw(t, "d")
-		c.Prefix2 = evid.BStr(rapid.SampledFrom([]string{"/p?x=", "/p/", "javascript:", "java", "/q#", "https://h/", "//evil.test/", "?", "x"}).Draw(t, "prefix2"))
+		if c.Mode == "recsep" && c.Prefix == "" {
+			c.Prefix = "/x/" // (a datum at the very start of the value followed by static text is C02's K-adjacent)
+		}
+		c.Prefix2 = evid.BStr(rapid.SampledFrom([]string{"/p?x=", "/p/", "javascript:", "java", "/q#", "https://h/", "//evil.test/", "?", "x", "#", "/", "&amp;", "script:", "%"}).Draw(t, "prefix2"))
 	}
 	return c
 }
